@@ -14,7 +14,7 @@ from checks.c02_cache import probe_order
 PROP = 'C03'
 LEVEL = 'exploration'
 SHARDS = {'quick': 6, 'thorough': 16}
-BUDGET_S = {'quick': 45, 'thorough': 480}
+BUDGET_S = {'quick': 55, 'thorough': 540}
 RULE = ('random programs (2-3 threads x 1-4 cache operations, 2-4 keys, max_size 1-3, LRI and LRU, '
         'with/without on_miss, cache pre-filled to capacity or not) run under a deterministic scheduler '
         'that can pre-empt at every bytecode boundary inside cacheutils: systematic single pre-emption '
@@ -104,8 +104,23 @@ def make_do_op(cache):
     return do_op
 
 
+_real_rlock = None
+
+
+def install_lock_factory():
+    """Every lock cacheutils creates (in __init__ or later) is the real primitive it asked for, wrapped
+    in a scheduler-aware shim.  The module-global name is rebound from the harness; the repository is
+    not edited."""
+    global _real_rlock
+    cu = common.load('cacheutils')
+    if _real_rlock is None:
+        _real_rlock = cu.RLock
+        cu.RLock = lambda *a, **kw: S.LockShim(_real_rlock(*a, **kw))
+
+
 def build(case):
     cu = common.load('cacheutils')
+    install_lock_factory()
     cls = cu.LRU if case['cls'] == 'LRU' else cu.LRI
     kw = {}
     if case.get('on_miss'):
@@ -163,12 +178,10 @@ def run_one(case, first, switches, record_tids=False, free=False):
         sc = S.Sched(len(case['programs']), first, switches,
                      event_budget=case.get('budget', 50000))
         sc.record_tids = record_tids
-        real = getattr(cache, '_lock', None)
-        if real is None:
+        if S.HOLDER_STATS.get('locks_created', 0) == 0:
+            # the cache created no lock through cacheutils.RLock: the shim cannot see lock waits
             return None, None, None, None, 'no-lock-attribute', cache
-        cache._lock = S.LockShim(real, sc)
         hist, status = S.run_threads(sc, mon, case['programs'], do_op)
-        cache._lock = real
     return cache, model, st0, hist, status, sc
 
 
@@ -321,6 +334,62 @@ def explore_case(ctx, case, label, r):
                 report(ctx, case, first, sw, kind, detail)
 
 
+DIRECTED_OPS = [['clear'], ['update', [['e', 5], ['a', 6]]], ['pop', 'a'], ['popitem'], ['del', 'a'],
+                ['setdefault', 'e', 7], ['get', 'a', None], ['getitem', 'a'], ['copy'], ['eq', [['a', 0]]],
+                ['set', 'a', 9]]
+
+
+def directed_cases():
+    """Small two-thread programs, one per (class, locked method): the method, then an insert and a
+    lookup, against another thread inserting and looking up.  Explored with ALL double pre-emptions."""
+    out = []
+    for cls in ('LRI', 'LRU'):
+        for op in DIRECTED_OPS:
+            out.append({'cls': cls, 'max_size': 2, 'on_miss': False, 'prefill': [['a', 0], ['b', 1]],
+                        'programs': [[op, ['set', 'c', 11]], [['set', 'd', 12]]]})
+    return out
+
+
+def explore_all_pairs(ctx, case, label):
+    st = ctx.stats
+    for first in (0, 1):
+        kind, detail, sc = judge(case, first, [], st, record_tids=True)
+        st.evaluations += 1
+        if sc is None:
+            return
+        if kind is not None:
+            report(ctx, case, first, [], kind, detail)
+            continue
+        N = sc.events
+        case['budget'] = 40 * N + 5000
+        total = N * (N - 1) // 2
+        cap = 40000 if ctx.thorough else 1000
+        if total <= cap:
+            pairs = [(k1, k2) for k1 in range(1, N + 1) for k2 in range(k1 + 1, N + 1)]
+            st.count('programs_with_exhaustive_double_preemption')
+        else:
+            r = ctx.rng('pairs', label, first)
+            pairs = set()
+            while len(pairs) < cap:
+                k1 = r.randint(1, N - 1)
+                pairs.add((k1, r.randint(k1 + 1, N)))
+            pairs = sorted(pairs)
+            st.count('programs_with_sampled_double_preemption')
+        for k1, k2 in pairs:
+            if ctx.out_of_time():
+                st.notes.append('%s: double pre-emption sweep cut short at k1=%d/%d' % (label, k1, N))
+                return
+            if True:
+                sw = [(k1, -1), (k2, -1)]
+                kind, detail, sc2 = judge(case, first, sw, st)
+                st.evaluations += 1
+                if sc2 is not None and len(sc2.made) >= 2:
+                    st.count('double_preemptions_effective')
+                    st.see((label, first, tuple(sc2.made)))
+                if kind is not None:
+                    report(ctx, case, first, sw, kind, detail)
+
+
 def report(ctx, case, first, switches, kind, detail):
     wit = {'case': case, 'first': first, 'switches': [list(s) for s in switches]}
     ctx.stats.violation(kind, detail, wit)
@@ -347,8 +416,16 @@ def stress(ctx, r, seconds):
 
 
 def run(ctx):
-    nprog = {'quick': 12, 'thorough': 150}[ctx.tier]
+    nprog = {'quick': 8, 'thorough': 150}[ctx.tier]
     try:
+        directed = directed_cases()
+        if ctx.thorough:
+            mine = [c for i, c in enumerate(directed) if i % ctx.nshards == ctx.shard]
+        else:
+            mine = [c for i, c in enumerate(directed) if i % ctx.nshards == ctx.shard]
+        for j, case in enumerate(mine):
+            ctx.stats.count('directed_programs')
+            explore_all_pairs(ctx, case, 'd%d.%d' % (ctx.shard, j))
         for i in range(nprog):
             if ctx.out_of_time():
                 ctx.stats.notes.append('stopped after %d programs (time budget)' % i)
